@@ -34,6 +34,8 @@ def _case_real(c):
         return searchlib.real_bzd(*args)
     if kind == "root":
         return searchlib.real_solve_root(*args)
+    if kind == "size":
+        return searchlib.real_size(args), ""
     raise ValueError(kind)
 
 
@@ -47,6 +49,8 @@ def _model_line(c):
         return searchlib.model_line_bzd(*args)
     if kind == "root":
         return searchlib.model_line_root(*args)
+    if kind == "size":
+        return "ping"          # the state-machine model of GHE.size is compared in C12; here the predicate decides
     raise ValueError(kind)
 
 
@@ -98,6 +102,7 @@ def run(ctx: core.Ctx):
         cases.append(("b1d", (counts, elo, ehi, rng.choice([None, 1, 2, 3, 5, 9, 100]), rng.random() < 0.5, rng.choice([0, 1, 2, 3, 15, 15]))))
     cases += searchlib.nested_cases(rng, 600 if quick else 6000)
     cases += searchlib.root_cases(rng, 300 if quick else 3000)
+    cases += [("size", c) for c in searchlib.size_cases(rng, 300 if quick else 3000)]
 
     real = core.pool_map(_case_real, cases, chunksize=64)
     model = ctx.driver([_model_line(c) for c in cases])
@@ -110,7 +115,9 @@ def run(ctx: core.Ctx):
             mo, path, mt = searchlib.split_model(model[idx])
             ctx.count(f"{kind}:{mo.split()[0] if not mo.startswith('selected') else 'selected:' + str(path)}")
             nontrivial = path != "bracket0"
-            if kind == "root":
+            if kind == "size":
+                same = True
+            elif kind == "root":
                 rk, rv = out_r
                 mk = mo.split()[0]
                 same = (rk == mk) or (rk.startswith("bracketed") and mk == "bracketed") or (rk.startswith("raise") and mo == rk)
@@ -131,6 +138,8 @@ def run(ctx: core.Ctx):
             searchlib.check_nested_predicate(ctx, kind, args, out_r, tr_r)
         elif kind == "root":
             searchlib.check_root_predicate(ctx, args, out_r)
+        elif kind == "size":
+            searchlib.check_size_predicate(ctx, args, out_r)
     if first_diff is not None:
         ctx.broken.append("search-model-correspondence")
         ctx.extra["first_disagreement"] = first_diff
